@@ -488,6 +488,83 @@ def alias_family():
     return out, ncalls
 
 
+UNBOUNDED_KEYS = {
+    "Euclidean": ["neg_log_dens", "grad_neg_log_dens", "h2", "dh2_dmom"],
+    "Gaussian": ["grad_neg_log_dens", "neg_log_dens", "dh2_dpos", "dh2_dmom"],
+    "Constrained": ["jacob_constr", "constr", "gram", "mhp_constr"],
+    "Riemannian": ["metric_func", "vjp_metric_func", "metric", "grad_neg_log_dens"],
+    "SoftAbs": ["hess_neg_log_dens", "mtp_neg_log_dens", "grad_neg_log_dens", "neg_log_dens"],
+}
+
+
+def unbounded_histories(tier):
+    """StateCacheInd.tla: the memoisation algorithm with a ghost staleness set is a FINITE-state system, so TLC's
+    complete exploration covers histories of ANY length (two state objects, three dependency dictionaries, up to four
+    memoised methods of a real system class).  Dep / Aux / Callable are the tables extracted from the running code,
+    TrueDep the transitive reads of the documented table (CacheTables.tla); the side conditions TrueDep <= Dep are
+    ASSUMEd (checked by TLC before exploring).  Returns coverage dict; raises MachineryError if the model does not
+    hold or if a deliberately broken table is not rejected (vacuity guard)."""
+    kinds = ["Euclidean", "Gaussian"] if tier == "quick" else list(UNBOUNDED_KEYS)
+    nkeys = 3 if tier == "quick" else 4
+    src = (tlc.SPECS / "StateCacheInd.tla").read_text()
+    out = {"unbounded_history_models": [], "unbounded_history_states": 0}
+
+    def run(kind, keys, break_dep, name):
+        tabs = extract_tables(kind, "diag" if kind == "Riemannian" else "-", True)
+        d = tlc.fresh_dir(name)
+        tlc.stage_specs(d, ["CacheTables.tla"])
+        kn = [f"k{i + 1}" for i in range(len(keys))]
+        mod = (src.replace('Objs == {"o1", "o2", "o3"}', 'Objs == {"o1", "o2"}')
+               .replace('Keys == {"k1", "k2", "k3", "k4"}', "Keys == {" + ", ".join(f'"{k}"' for k in kn) + "}")
+               .replace('Grps == {"g1", "g2", "g3", "g4"}', 'Grps == {"g1", "g2", "g3"}'))
+        (d / "StateCacheInd.tla").write_text(mod)
+        name_of = dict(zip(kn, keys))
+        key_of = {v: k for k, v in name_of.items()}
+        dep = {k: set(tabs["declared"][name_of[k]]) for k in kn}
+        if break_dep:
+            victim = next(k for k in kn if dep[k])
+            dep[victim] = set()           # a method that declares no dependency at all
+        aux = {k: {key_of[a] for a in tabs["aux"].get(name_of[k], []) if a in key_of and tabs["withaux"].get(name_of[k])} for k in kn}
+        call = {k for k in kn if tabs["callable"][name_of[k]]}
+
+        def fun(dct):
+            return "[k \\in Keys |-> CASE " + " [] ".join(f'k = "{k}" -> {tlc.to_tla(v) if v else "{}"}' for k, v in dct.items()) + "]"
+
+        (d / "MCStateCacheInd.tla").write_text(
+            "---- MODULE MCStateCacheInd ----\nEXTENDS StateCacheInd, CacheTables, Sequences\n"
+            f"Tab == Tables.{kind}\n"
+            "NameOf == [k \\in Keys |-> CASE " + " [] ".join(f'k = "{k}" -> "{v}"' for k, v in name_of.items()) + "]\n"
+            "RECURSIVE TD(_)\n"
+            "TD(m) == Tab[m].reads \\cup UNION {TD(Tab[m].calls[i]) : i \\in 1..Len(Tab[m].calls)}\n"
+            f"DepC == {fun(dep)}\nTrueDepC == [k \\in Keys |-> TD(NameOf[k])]\nAuxC == {fun(aux)}\nCallableC == {tlc.to_tla(call) if call else '{}'}\n"
+            "SideConditions == /\\ \\A k \\in Keys : TrueDepC[k] \\subseteq DepC[k]\n"
+            "                  /\\ \\A k \\in Keys : \\A a \\in AuxC[k] : TrueDepC[a] \\subseteq DepC[k]\n====\n")
+        cfg = ("INIT Init\nNEXT Next\nCONSTANTS\n  Dep <- DepC\n  TrueDep <- TrueDepC\n  Aux <- AuxC\n  Callable <- CallableC\n"
+               "INVARIANT IndInv\nCHECK_DEADLOCK FALSE\n")
+        res = tlc.run_tlc(d, "MCStateCacheInd", cfg, workers=12, timeout=1500, cpus=12, heap="8g", dump_trace=False)
+        return res, dep, name_of
+
+    for kind in kinds:
+        keys = UNBOUNDED_KEYS[kind][:nkeys]
+        res, dep, name_of = run(kind, keys, False, f"c09_unbounded_{kind}")
+        if not res.ok:
+            if res.error_kind != "invariant":
+                raise MachineryError(f"StateCacheInd.tla failed for the tables of {kind}: {res.stdout[-1200:]}")
+            # the declared dependencies extracted from the code do not keep cached values fresh in the abstract
+            # algorithm: reported as a drift here; the replayed histories (bounded engine, scripted families) decide
+            # whether the real objects return stale values
+            out.setdefault("drift", []).append(f"StateCacheInd.tla: {res.violated} fails for every-length histories with the dependency "
+                                               f"tables extracted for {kind} {keys}: declared {dep}")
+            continue
+        out["unbounded_history_models"].append({"kind": kind, "methods": keys, "distinct_states": res.distinct, "depth": None})
+        out["unbounded_history_states"] += res.distinct
+    # vacuity guard: a table with a missing dependency must make Fresh fail
+    res, dep, name_of = run(kinds[0], UNBOUNDED_KEYS[kinds[0]][:nkeys], True, "c09_unbounded_selftest")
+    if res.ok or res.error_kind != "invariant":
+        raise MachineryError("StateCacheInd.tla accepted a table with a missing dependency (vacuous model)")
+    return out
+
+
 def check_all(tier, seed, pid):
     """Runs every configuration; returns dict with coverage + violations (owner, sig, what, replay) + drifts."""
     import multiprocessing as mp
@@ -509,6 +586,10 @@ def check_all(tier, seed, pid):
         outs = pool.map(_run_job, [(j, tier, seed, pid, sim[0]) for j in jobs], chunksize=1)
     total = {"states": 0, "transitions": 0, "histories": 0, "actions": 0, "calls": 0, "viol": [], "drift": [],
              "tlc_counterexamples": [], "samples": [], "configs": []}
+    if pid == "C09":
+        ub = unbounded_histories(tier)
+        total["drift"] += ub.pop("drift", [])
+        total.update(ub)
     av, an = alias_family()
     total["viol"] += [v for v in av if v[0] == pid]
     total["calls"] += an
